@@ -5,13 +5,16 @@ from oracle_util import *  # noqa
 from protocol import from_real
 
 ID = "C07"
-LEAN_MODULE = None
+LEAN_MODULE = "SCoda.Props.C07"
+LEVEL = "proof"
 CLAUSES = [
-    ("output is well-formed for every input (alternation, starts with on, ends with off)", None),
-    ("no time/key signature repeats the one in force", None),
-    ("total duration unchanged", None),
-    ("sounding set unchanged on paired input (overlaps fused)", None),
-    ("normalising twice changes nothing", None),
+    ("output is well-formed for every input (alternation, starts with on, ends with off)", ["SCoda.C07.wf_out"]),
+    ("no time/key signature repeats the one in force, and every signature that changes the one in force is kept",
+     ["SCoda.C07.no_repeat_ts", "SCoda.C07.no_repeat_ks", "SCoda.C07.ts_in_force"]),
+    ("total duration unchanged; output is a legal relative view with positive waits", ["SCoda.C07.duration_eq", "SCoda.C07.ok_out"]),
+    ("sounding set unchanged on paired input (overlaps fused); every kept event is an input event at its original tick; other events all kept",
+     ["SCoda.C07.sound_eq", "SCoda.C07.events_sublist", "SCoda.C07.others_kept"]),
+    ("normalising twice changes nothing observable", ["SCoda.C07.idempotent"]),
 ]
 RULE = ("random relative sequences of <=12 (quick) / <=16 (thorough) messages over 2 channels and pitches {0,1,60,61} "
         "(pitches 0/1 collide with channel numbers), ill-formed on purpose, plus well-formed multi-channel sequences; "
